@@ -116,6 +116,9 @@ def add_lowest(p, rng):
     if rng.random() < 0.3 and ft and q.get("sched") != "alap":
         tgt = rng.choice(ft)[0]
         t["deps"] = [{"target": tgt, "ref": tgt}]
+    elif rng.random() < 0.4:
+        # a pinned start does not change the rank of the task: it is still served last
+        t["start"] = q["start"] + rng.choice([0, 9, 10, 33, 57]) * 3600
     q["tasks"].append(t)
     return q
 
@@ -155,7 +158,7 @@ def run_c09(chk):
     chk.cov["evaluations"] += len(plus)
     chk.cov["distinct_nontrivial"] = nontriv
     chk.cov["rule"] = ("forward projects scheduled by the real code with and without an added top-level task of priority 1 (strictly lowest) on a "
-                       "random resource, optionally depending on an existing task, nothing depending on it; every other task's flag/start/end must "
+                       "random resource, optionally depending on an existing task or pinned to a start date, nothing depending on it; every other task's flag/start/end must "
                        "be identical when everything fits; base projects also compared with the Lean model; non-trivial = pairs in which the added "
                        "task was scheduled")
     return conclude(chk, dis, lambda: found)
